@@ -25,7 +25,7 @@ import (
 func init() {
 	Registry["C13"] = &Check{
 		Scenarios: c13Scenarios,
-		Rule: "client side: MaxRetransmits R in {0,1,2}, WatchdogInterval 3 s, RetransmitInterval 1 s on the virtual clock; the peer's reaction to the n-th DWR transmission is scripted from {success DWA after 0, 1/2 or 1 interval (1 = exact tie with the retransmission timer), DWA 5012 at once, silence}, a transport that takes 3/2 intervals to accept the first DWR while the peer answers at once (R 0 and 1: no retransmission, no close); two dials through one state machine, one with the watchdog off and one with it on, in either order (the watched connection stays open and is probed every interval, the other never sees a DWR); server side: every sequence of <=3 DWRs over {fresh identifiers, the previous identifiers again, the same with the T flag, fresh with the T flag, the same with the P flag, zero identifiers with T} is answered DWR by DWR; scripts with other non-success answers (1001, 3004, a DWA without Result-Code) and with a peer that leaves a DWR unanswered but sends a DWR of its own at that instant, plus five burst scripts with answers delayed by 3/2 and 5/2 intervals (several late answers landing inside one later waiting window); all scripts of length <=2 (thorough 3), silence afterwards, so every run ends with the watchdog closing the connection; every schedule of watchdog thread, reader, timers and peer up to preemption bound 2 (thorough: unbounded for scripts of length <=1); peer steps and due timers are free transitions, so every ordering of answer / timer / reader is explored already at bound 0. In every other scenario the application replaces the connection context after the handshake by one derived from it that carries a value of its own and has been cancelled. Oracle: the observed (time, hop-by-hop id) sequence of DWRs and the close time must be one of the timelines of a reference model (branching only at exact ties). Redial: the peer of a first connection leaves the first DWR unanswered and disconnects 0 or 1/2 interval later, the application redials at once with the same Client, and the second connection (peer answers two DWRs, then silence) must show the model's timeline measured from its own handshake (R in {0,1}). A handshake that takes longer than WatchdogInterval (the peer answers only the retransmitted CER): no DWR before the CEA, the first one interval after it. Two live connections of one Client (dialled one after the other, both peers answer every DWR): neither is closed and each sees one DWR per interval. A client with the watchdog enabled answers a DWR its handshaken peer sends (between rounds and at the instant of its own DWR). Server side: one state machine serves 40 peers one after the other (handshake, DWR, disconnect each); for every DWR from a handshaken peer over {both identity AVPs, Origin-Host missing, Origin-Realm missing, with Origin-State-Id, Origin-Host in another letter case, another Origin-Host} x ids {0,1,2^31,2^32-1}^2 the state machine must answer a success DWA with the local identity and the request's ids.",
+		Rule: "three watchdog scripts with delayed acknowledgements while an application goroutine updates the connection context (read, work, store a derived one) every quarter interval, so that an update straddles the start of every round (preemption bound 0: every ordering of the free transitions); client side: MaxRetransmits R in {0,1,2}, WatchdogInterval 3 s, RetransmitInterval 1 s on the virtual clock; the peer's reaction to the n-th DWR transmission is scripted from {success DWA after 0, 1/2 or 1 interval (1 = exact tie with the retransmission timer), DWA 5012 at once, silence}, a transport that takes 3/2 intervals to accept the first DWR while the peer answers at once (R 0 and 1: no retransmission, no close); two dials through one state machine, one with the watchdog off and one with it on, in either order (the watched connection stays open and is probed every interval, the other never sees a DWR); server side: every sequence of <=3 DWRs over {fresh identifiers, the previous identifiers again, the same with the T flag, fresh with the T flag, the same with the P flag, zero identifiers with T} is answered DWR by DWR; scripts with other non-success answers (1001, 3004, a DWA without Result-Code) and with a peer that leaves a DWR unanswered but sends a DWR of its own at that instant, plus five burst scripts with answers delayed by 3/2 and 5/2 intervals (several late answers landing inside one later waiting window); all scripts of length <=2 (thorough 3), silence afterwards, so every run ends with the watchdog closing the connection; every schedule of watchdog thread, reader, timers and peer up to preemption bound 2 (thorough: unbounded for scripts of length <=1); peer steps and due timers are free transitions, so every ordering of answer / timer / reader is explored already at bound 0. In every other scenario the application replaces the connection context after the handshake by one derived from it that carries a value of its own and has been cancelled. Oracle: the observed (time, hop-by-hop id) sequence of DWRs and the close time must be one of the timelines of a reference model (branching only at exact ties). Redial: the peer of a first connection leaves the first DWR unanswered and disconnects 0 or 1/2 interval later, the application redials at once with the same Client, and the second connection (peer answers two DWRs, then silence) must show the model's timeline measured from its own handshake (R in {0,1}). A handshake that takes longer than WatchdogInterval (the peer answers only the retransmitted CER): no DWR before the CEA, the first one interval after it. Two live connections of one Client (dialled one after the other, both peers answer every DWR): neither is closed and each sees one DWR per interval. A client with the watchdog enabled answers a DWR its handshaken peer sends (between rounds and at the instant of its own DWR). Server side: one state machine serves 40 peers one after the other (handshake, DWR, disconnect each); for every DWR from a handshaken peer over {both identity AVPs, Origin-Host missing, Origin-Realm missing, with Origin-State-Id, Origin-Host in another letter case, another Origin-Host} x ids {0,1,2^31,2^32-1}^2 the state machine must answer a success DWA with the local identity and the request's ids.",
 		Assume: []string{"virtual time: writes and computation take no time", "data-race freedom between visible operations (audited separately with -race)"},
 		QuickBudget: 150, ThoroughBudget: 2400,
 	}
@@ -100,6 +100,13 @@ func c13Scenarios(tier string) []*Scenario {
 			out = append(out, c13Scenario(R, sc, bound))
 		}
 	}
+	c13Straddle = true
+	for _, sc := range [][]string{{"okH"}, {"okH", "ok1"}, {"ok1", "bad"}} {
+		x := c13Scenario(1, sc, 0)
+		x.Name += "/application-context-updates"
+		out = append(out, x)
+	}
+	c13Straddle = false
 	bursts := [][]string{{"ok5H", "ok3H", "ok0"}, {"ok5H", "ok3H", "okH"}}
 	burstBound := 0 // answers, timers and the reader are free transitions: every ordering of the burst is explored at bound 0
 	if thorough {
@@ -275,7 +282,12 @@ func c13Model(R int, script []string) []c13TL {
 
 type c13AppKey struct{}
 
+// c13Straddle: the scenarios built while it is set run an application goroutine that updates the
+// connection context over and over (see the body)
+var c13Straddle = false
+
 func c13Scenario(R int, script []string, bound int) *Scenario {
+	straddle := c13Straddle
 	timelines := c13Model(R, script)
 	horizon := time.Duration(0)
 	for _, t := range timelines {
@@ -369,6 +381,19 @@ func c13Scenario(R int, script []string, bound int) *Scenario {
 		st.hsAt = vs.Now()
 		if !st.dialOK {
 			st.note = append(st.note, fmt.Sprintf("dial failed: %v", err))
+		}
+		if st.dialOK && straddle {
+			// the application keeps per-connection state the usual way - read the context, work, store a
+			// derived one - over and over, at instants of its own (an eighth of an interval off the
+			// library's timers), so that some update straddles the start of every watchdog round
+			vs.GoNamed("app-context-updates", true, func() {
+				vs.TimeSleep(c13I / 8)
+				for i := 0; vs.Now() < horizon-c13I && !conn.Closed; i++ {
+					ctx := c.Context()
+					vs.TimeSleep(c13I / 4)
+					c.SetContext(context.WithValue(ctx, c13AppKey{}, i))
+				}
+			})
 		}
 		if st.dialOK && (len(script)+R)%2 == 1 {
 			// the application hangs a value of its own on the connection, through a context it derived
